@@ -35,6 +35,53 @@ def find_rank_site(an: Analysis):
     raise AnalysisError("decoder rank bookkeeping (`if index not in self.MAP: self.MAP[index] = RANK`) not found")
 
 
+def duplicates_key_rule(an: Analysis, rep, f=None, mapattr=None):
+    """Entries that always keep their override (duplicates) are detected with the table's own key function."""
+    if f is None:
+        f, ifst, assign, mapattr, idx = find_rank_site(an)
+    keyattr = next((fl.name for fl in f.cls.fields if "Callable" in ast.dump(fl.annotation)), None)
+    dupsites = []
+    for m in f.cls.methods.values():
+        s_ = m.params[0] if m.params else None
+        for n in ast.walk(m.node):
+            if isinstance(n, (ast.ListComp, ast.GeneratorExp, ast.SetComp, ast.DictComp)) and len(n.generators) >= 1:
+                g0 = n.generators[0]
+                src_ok = isinstance(g0.iter, ast.Attribute) and isinstance(g0.iter.value, ast.Name) and g0.iter.value.id == s_ and g0.iter.attr not in (mapattr,)
+                if not src_ok or not isinstance(g0.target, ast.Name):
+                    continue
+                elt = n.elt if not isinstance(n, ast.DictComp) else n.value
+                for c in ast.walk(elt):
+                    if isinstance(c, ast.Call) and len(c.args) == 1 and isinstance(c.args[0], ast.Name) and c.args[0].id == g0.target.id:
+                        dupsites.append((m, c))
+            if isinstance(n, ast.Call) and isinstance(n.func, ast.Name) and n.func.id == "map" and len(n.args) == 2 \
+                    and isinstance(n.args[1], ast.Attribute) and isinstance(n.args[1].value, ast.Name) and n.args[1].value.id == s_:
+                dupsites.append((m, ast.Call(func=n.args[0], args=[ast.Name("x", ast.Load())], keywords=[])))
+    # attributes the rank function consults besides the rank map and the table itself (e.g. the set of duplicated indices)
+    self_r = f.params[0]
+    consulted = {n.attr for n in ast.walk(f.node) if isinstance(n, ast.Attribute) and isinstance(n.value, ast.Name) and n.value.id == self_r} - {mapattr}
+    consulted -= {fl.name for fl in f.cls.fields if "Callable" in ast.dump(fl.annotation) or fl.name == (f.cls.fields[0].name if f.cls.fields else "")}
+    for attr in sorted(consulted):
+        for m in f.cls.methods.values():
+            s_ = m.params[0] if m.params else None
+            for n in ast.walk(m.node):
+                if isinstance(n, ast.Assign) and any(isinstance(t, ast.Attribute) and t.attr == attr and isinstance(t.value, ast.Name) and t.value.id == s_ for t in n.targets):
+                    uses_key = keyattr is not None and any(isinstance(c, ast.Attribute) and c.attr == keyattr for c in ast.walk(m.node))
+                    rep.add("R09.2", f"{m.qual}::self.{attr} is computed through the table's key function", uses_key, loc(m.module, n),
+                            f"self.{attr} (consulted by the rank function) is computed from the entries via self.{keyattr}" if uses_key else
+                            f"self.{attr}, which the rank function consults to decide an override, is computed from the raw entries (==/hash) and not through self.{keyattr}, the key the "
+                            f"encoder looks values up by: entries that are == but have different keys (1 / True) get needless overrides, entries that are not == but share a key "
+                            f"(two NaN constants) get none and are merged on re-encoding")
+    if keyattr and dupsites:
+        for m, c in dupsites:
+            fnode = c.func
+            ok = isinstance(fnode, ast.Attribute) and isinstance(fnode.value, ast.Name) and fnode.value.id == m.params[0] and fnode.attr == keyattr
+            rep.add("R09.2", f"{m.qual}::duplicates keyed by the table's key function", ok, loc(m.module, m.node),
+                    f"entries are compared through self.{keyattr}, the key the encoder looks values up by" if ok else
+                    f"table entries are keyed with `{norm_src(fnode)}` here, not with self.{keyattr} (the key the encoder looks values up by): entries the encoder keeps apart are "
+                    f"treated as duplicates and keep a redundant position override - or real duplicates are missed and the re-encoding merges them")
+
+
+
 def _is_rank_call(node, rank_name: str) -> bool:
     return isinstance(node, ast.Call) and isinstance(node.func, ast.Attribute) and node.func.attr == rank_name
 
@@ -218,32 +265,7 @@ def run(an: Analysis, rep):
             f"decoder pre-marks len({dec_fields}) leading local slots, the encoder pre-assigns exactly those" if dec_fields == enc_fields
             else f"decoder pre-marks the slots of {dec_fields}, encoder pre-assigns {enc_fields}")
 
-    # duplicates (entries that always keep their override) are detected with the table's own key function
-    keyattr = next((fl.name for fl in f.cls.fields if "Callable" in ast.dump(fl.annotation)), None)
-    dupsites = []
-    for m in f.cls.methods.values():
-        s_ = m.params[0] if m.params else None
-        for n in ast.walk(m.node):
-            if isinstance(n, (ast.ListComp, ast.GeneratorExp, ast.SetComp, ast.DictComp)) and len(n.generators) >= 1:
-                g0 = n.generators[0]
-                src_ok = isinstance(g0.iter, ast.Attribute) and isinstance(g0.iter.value, ast.Name) and g0.iter.value.id == s_ and g0.iter.attr not in (mapattr,)
-                if not src_ok or not isinstance(g0.target, ast.Name):
-                    continue
-                elt = n.elt if not isinstance(n, ast.DictComp) else n.value
-                for c in ast.walk(elt):
-                    if isinstance(c, ast.Call) and len(c.args) == 1 and isinstance(c.args[0], ast.Name) and c.args[0].id == g0.target.id:
-                        dupsites.append((m, c))
-            if isinstance(n, ast.Call) and isinstance(n.func, ast.Name) and n.func.id == "map" and len(n.args) == 2 \
-                    and isinstance(n.args[1], ast.Attribute) and isinstance(n.args[1].value, ast.Name) and n.args[1].value.id == s_:
-                dupsites.append((m, ast.Call(func=n.args[0], args=[ast.Name("x", ast.Load())], keywords=[])))
-    if keyattr and dupsites:
-        for m, c in dupsites:
-            fnode = c.func
-            ok = isinstance(fnode, ast.Attribute) and isinstance(fnode.value, ast.Name) and fnode.value.id == m.params[0] and fnode.attr == keyattr
-            rep.add("R09.2", f"{m.qual}::duplicates keyed by the table's key function", ok, loc(m.module, m.node),
-                    f"entries are compared through self.{keyattr}, the key the encoder looks values up by" if ok else
-                    f"table entries are keyed with `{norm_src(fnode)}` here, not with self.{keyattr} (the key the encoder looks values up by): entries the encoder keeps apart are "
-                    f"treated as duplicates and keep a redundant position override - or real duplicates are missed and the re-encoding merges them")
+    rep.run(duplicates_key_rule, an, rep, f, mapattr)
 
     # R09.5: nothing but the rank function decides an override
     rep.rule("R09.5", "position overrides of decoded operands come from the rank function only", 4)
